@@ -166,6 +166,14 @@ type Evaluator struct {
 	Max   int
 	// Mutated is set when a transform would have written outside its clone.
 	OutsideWrites int
+	// FittingCallsRejected counts calls of typed lambdas that the port's
+	// positional signature algorithm (which fitSignature mirrors) rejects
+	// although the arguments fit the signature declaratively
+	FittingCallsRejected int
+	// ... the same for signatures with an option in a place where the port
+	// does not honour it ('-' not first, '?' before a mandatory parameter,
+	// '+' not last)
+	FittingCallsRejectedNonCanonical int
 	// MaxRange bounds the size of ranges the model is willing to build
 	// (0 = the language limit only).
 	MaxRange int
